@@ -127,6 +127,7 @@ type FuncCtx struct {
 	callOrd  map[*ast.CallExpr]int
 	loopEntry *State
 	coveredLoops map[int]bool
+	lastVariadic []*Val
 	noMerge  bool
 }
 
